@@ -1,21 +1,30 @@
 """C25 -- every declared name is found by the runtime lookup of the generated tables,
 no undeclared name is found.
 
-E1, three parts, all exhaustive over the stated bound:
+E1, all parts exhaustive over the stated bound:
 
  1. stand-alone ASan+UBSan executable around the real search_sorted /
     search_in_{globals,struct_unions,enums,typenames} (#include of
     <repo>/src/c/parse_c_type.c): ALL subsets of size <= 4 of an identifier universe
-    built to collide, in Python's sort order, x every name of the universe as probe.
+    built to collide, in Python's sort order, x every name of the universe as probe;
+    plus every contiguous window and every arithmetic subsequence of the sorted universe
+    (tables of every length 1..75).
  2. end to end through real generated out-of-line ABI modules: all subsets of size
     <= 2 (quick) / <= 3 (thorough) of the 63 C identifiers, each name declared as
     constant, struct tag, typedef, enum tag, anonymous-struct typedef ('$name' entry)
-    and union tag; integer_const / lib attribute / typeof for every identifier of the
-    universe (members and non-members); plus the full universe (thorough: and all
-    universe-minus-one sets).
- 3. the same through compiled API-mode modules (two per set: constants + struct tags,
-    anonymous-struct typedefs + enum tags) for all subsets of size <= 2 of a collision
-    core (+ triples in the thorough tier) and the full universe.
+    and union tag (module kinds a, b, c), and for the sets of size <= 2 also as
+    enumerator of one shared enum, anonymous-enum typedef next to an enum tag,
+    anonymous-union typedef next to a struct tag (kinds e, f, g); integer_const /
+    lib attribute / typeof (also with the identifier followed by ']', '*', '[', '(',
+    ',' instead of the end of the string) for every identifier of the universe (members
+    and non-members); plus the full universe (thorough: and all universe-minus-one sets).
+ 2s. names the type-name fallbacks of the runtime also know (size_t, FILE, _IO_FILE ...),
+    declared as something else; the cases that declare _IO_FILE in a process of their own (_c25x.py).
+ 2i. ffi.include(): the names distributed over a chain A -> (B1 -> C, B2) of four generated
+    modules, every distribution of every set of size <= 2 (thorough 3) of CORE8 (_c25x.py).
+ 3. the same through compiled API-mode modules for all subsets of size <= 2 of a collision
+    core (+ triples in the thorough tier) and the full universe; include chains of four
+    compiled modules; modules whose globals table mixes all entry kinds (_c25x.py).
 """
 import contextlib
 import io
@@ -32,17 +41,31 @@ LEVEL = "exploration"
 META = dict(
     engine="E1-enum", level="exploration",
     technique="exhaustive enumeration of identifier sets over a universe built to collide; the real search functions "
-              "under ASan/UBSan on synthetic tables, and the real generated ABI/API modules end to end",
+              "under ASan/UBSan on synthetic tables, and the real generated ABI/API modules (single and ffi.include() "
+              "chains) end to end",
     text="(1) all 1.29 M subsets of size <= 4 of a 75-name universe (every string of length <= 3 over {A,a,_,0} that is "
          "an identifier + '$' names of anonymous types), sorted by Python, x 75 probes x 5 search entry points taken "
-         "by #include from parse_c_type.c: every member found at its own index, every non-member not found, no "
-         "sanitizer report; (2) all subsets of size <= 2 (thorough 3) of the 63 identifiers as three real out-of-line "
-         "ABI modules each (constants + struct tags / typedefs + enum tags / anonymous-struct typedefs + union tags), "
-         "every identifier looked up through ffi.integer_const, lib.<name>, ffi.typeof; (3) a batch of compiled "
-         "API-mode modules.",
+         "by #include from parse_c_type.c, plus all 2850 contiguous windows and 2774 arithmetic subsequences of the "
+         "sorted universe (every table length 1..75, as exactly-sized heap blocks): every member found at its own index, "
+         "every non-member not found, no sanitizer report; (2) all subsets of size <= 2 (thorough 3) of the 63 "
+         "identifiers as three real out-of-line ABI modules each (constants + struct tags / typedefs + enum tags / "
+         "anonymous-struct typedefs + union tags), sets of size <= 2 also as enumerators of one enum / anonymous-enum "
+         "typedef + enum tag / anonymous-union typedef + struct tag; every identifier of the 80-name probe universe "
+         "looked up through ffi.integer_const, lib.<name>, ffi.typeof, also inside longer type strings ('char[n]', "
+         "'struct n*', 'enum n(*)(n*,enum n)'); (2s) 8 names that the type-name fallbacks know (size_t, bool, FILE, "
+         "_IO_FILE ...) declared as constants/tags/typedefs, alone and next to each name of CORE6 (modules that declare "
+         "_IO_FILE in a process of their own); (2i) ffi.include(): every distribution over the four modules of a chain A -> (B1 -> C, B2) of every "
+         "set of size <= 2 (thorough 3) of CORE8, 3 module kinds, all names looked up through each of the four ffi/lib "
+         "pairs (delegation loops of lib_obj.c, ffi_obj.c ffi_fetch_int_constant / _fetch_external_struct_or_union); "
+         "(3) a batch of compiled API-mode modules (4 kinds; thorough 6), API-mode include chains, and API modules whose "
+         "globals table mixes functions of the three calling conventions, variables, constants and extern \"Python\" "
+         "entries (lib.<name>, ffi.addressof, def_extern by name, dir(lib)).",
     note="the order of a subset is obtained from Python's list.sort of the universe (a total order, so every sorted "
-         "subset is a subsequence); probes are the universe itself (names outside it are not probed); gcc/ASan are "
-         "trusted; the empty table is given a non-NULL base in part 1")
+         "subset is a subsequence); probes are the universe itself (names outside it are not probed, except a few "
+         "near-miss spellings in the mixed-kind modules); a name declared twice in one C scope (struct n and union n, "
+         "typedef n and constant n) is not a C program and is never generated; standard type names found when NOT "
+         "declared (size_t ...) are excluded by a counted rule; gcc/ASan are trusted; the empty table is given a "
+         "non-NULL base in part 1")
 
 ALPHA = "Aa_0"
 IDS = ["".join(s) for n in (1, 2, 3) for s in itertools.product(ALPHA, repeat=n) if s[0] != "0"]
@@ -51,12 +74,21 @@ assert len(IDS) == 63 and len(set(IDS)) == 63
 # names that begin like the prefixes the runtime strips from struct/union/enum names ("struct ", "union ",
 # "enum ") -- used as typedef names of anonymous types they exercise the '$name' <-> 'name' mapping
 KW = ["union_t", "unionx", "union_", "struct_t", "structx", "enum_t", "enumx", "unio", "t"]
-IDS_X = IDS + KW
-GI = {n: i for i, n in enumerate(IDS_X)}        # global index: makes values/sizes unique per name
+# names that the runtime's type-name lookup ALSO knows from its fallbacks (search_standard_typename, get_common_type,
+# the 'struct _IO_FILE' special case of parse_c_type.c / realize_c_type.c), here declared as something else.  Legal C
+# identifiers all of them.  Used in ABI mode only (an API module's C source includes <stdint.h>/<stdio.h> via Python.h).
+SPECIAL = ["uint8_t", "size_t", "ssize_t", "wchar_t", "int_fast8_t", "bool", "FILE", "_IO_FILE"]
+IDS_X = IDS + KW + SPECIAL
+# names that are equal over 199/200 characters ("differ only after a common prefix"; longer than the '%.200s' of the
+# runtime's messages); a probe universe of their own (part 2L)
+_P200 = "Lq" * 100
+LONG = [_P200[:199], _P200, _P200 + "A", _P200 + "AA", _P200 + "_", _P200 + "A" * 56]
+GI = {n: i for i, n in enumerate(IDS_X + LONG)}        # global index: makes values/sizes unique per name
 CORE6 = ["A", "a", "_", "A0", "AA", "A_"]
 CORE8 = CORE6 + ["Aa", "_A"]
 CORE12 = CORE8 + ["a0", "AAA", "__", "aA"]
 KMAX_C = 4
+KINDS = "abcdefgh"
 
 
 class _E(object):
@@ -96,7 +128,7 @@ _HARNESS = None
 
 
 def run_harness_slice(item):
-    lo, hi, kmax = item
+    lo, hi, kmax = item            # kmax == "W": the windows / arithmetic subsequences of the universe
     exe, names = _HARNESS
     env = dict(os.environ)
     env.pop("LD_PRELOAD", None)
@@ -115,47 +147,74 @@ def run_harness_slice(item):
 
 # ---------------------------------------------------------------------------------------
 # parts 2 and 3: generated modules
+#
+# A C scope has ONE ordinary name space (typedef names, enumerators, objects, functions; cffi's '#define' constants
+# stand for enumerators/macros) and ONE tag name space (struct, union and enum tags together).  Every module kind
+# therefore gives a name n at most one declaration per name space:
+#
+#   kind  ordinary name space                                   tag name space
+#   a     #define n 100+g                                       struct n { char f<g>[g+1]; }
+#   b     typedef short n[g+1]                                  enum n { Zq<g> = g+7 }
+#   c     typedef struct { char g<g>[g+1]; struct {char n<g>;}; } n      union n { char h<g>[g+2]; }
+#   d     the typedef of c                                      the enum of b           (API batch: 4 tables in a + d)
+#   e     enumerator n = 100+g of ONE enum Zt over the whole set (the globals table holds _CFFI_OP_ENUM entries and
+#         the runtime walks the comma-separated enumerator list, looking each name up with an explicit length)
+#   f     typedef enum { Zr<g> = g+3 } n   ('$n' in the enums table)     enum n { Zq<g> = g+7 }
+#   g     typedef union { char k<g>[g+3]; } n  ('$n', a union)           struct n { char f<g>[g+1]; }
+#   h     typedef struct { char g<g>[g+1]; char n<g>; } n  (c without the nested anonymous struct: those are numbered
+#         '$1', '$2' PER MODULE and collide along ffi.include() chains, a defect recorded under C34)      union of c
+#
+# g = GI[n], so that 'resolves to its own entry' is observable in every value, field name and size.
+
+def decls_for(kind, n):
+    g = GI[n]
+    td_anon = "typedef struct { char g%d[%d]; struct { char n%d; }; } %s;\n" % (g, g + 1, g, n)
+    enum_tag = "enum %s { Zq%d = %d };\n" % (n, g, g + 7)
+    struct_tag = "struct %s { char f%d[%d]; };\n" % (n, g, g + 1)
+    if kind == "a":
+        return ["#define %s %d\n" % (n, 100 + g), struct_tag]
+    if kind == "b":
+        return ["typedef short %s[%d];\n" % (n, g + 1), enum_tag]
+    if kind == "c":
+        return [td_anon, "union %s { char h%d[%d]; };\n" % (n, g, g + 2)]
+    if kind == "d":
+        return [td_anon, enum_tag]
+    if kind == "h":
+        return ["typedef struct { char g%d[%d]; char n%d; } %s;\n" % (g, g + 1, g, n),
+                "union %s { char h%d[%d]; };\n" % (n, g, g + 2)]
+    if kind == "f":
+        return ["typedef enum { Zr%d = %d } %s;\n" % (g, g + 3, n), enum_tag]
+    if kind == "g":
+        return ["typedef union { char k%d[%d]; } %s;\n" % (g, g + 3, n), struct_tag]
+    raise ValueError(kind)
+
+
+def text_for(S, kind):
+    """The cdef of module kind `kind` for the identifier set S (declared in reverse order: the generator has
+    to sort)."""
+    names = sorted(S, reverse=True)
+    if kind == "e":
+        if not names:
+            return ""
+        return "enum Zt { %s };\n" % ", ".join("%s = %d" % (n, 100 + GI[n]) for n in names)
+    return "".join("".join(decls_for(kind, n)) for n in names)
+
 
 def texts_for(S):
-    """Three cdefs for the identifier set S (declared in reverse order: the generator has to sort).
-    Every declaration carries the global index of its name so that 'resolves to its own entry'
-    is observable."""
-    names = sorted(S, reverse=True)
-    a, b, c, d = [], [], [], []
-    for n in names:
-        g = GI[n]
-        a.append("#define %s %d\n" % (n, 100 + g))
-        a.append("struct %s { char f%d[%d]; };\n" % (n, g, g + 1))
-        b.append("typedef short %s[%d];\n" % (n, g + 1))
-        b.append("enum %s { Zq%d = %d };\n" % (n, g, g + 7))
-        c.append("typedef struct { char g%d[%d]; struct { char n%d; }; } %s;\n" % (g, g + 1, g, n))
-        c.append("union %s { char h%d[%d]; };\n" % (n, g, g + 2))
-        # d = the typedef of c + the enum tag of b: with a, it reaches all four tables in two modules (API batch)
-        d.append("typedef struct { char g%d[%d]; struct { char n%d; }; } %s;\n" % (g, g + 1, g, n))
-        d.append("enum %s { Zq%d = %d };\n" % (n, g, g + 7))
-    return "".join(a), "".join(b), "".join(c), "".join(d)
+    return {k: text_for(S, k) for k in KINDS}
 
 
 def c_source_for(S, which):
     """C source for the API-mode variant (constants become enumerators: no macros with 1-letter names)."""
     names = sorted(S)
-    out = []
     if which == "a":
-        out.append("enum { %s };\n" % ", ".join("%s = %d" % (n, 100 + GI[n]) for n in names))
+        out = []
+        if names:
+            out.append("enum { %s };\n" % ", ".join("%s = %d" % (n, 100 + GI[n]) for n in names))
         for n in names:
             out.append("struct %s { char f%d[%d]; };\n" % (n, GI[n], GI[n] + 1))
-    elif which == "b":
-        for n in names:
-            out.append("typedef short %s[%d];\nenum %s { Zq%d = %d };\n" % (n, GI[n] + 1, n, GI[n], GI[n] + 7))
-    else:
-        for n in names:
-            g = GI[n]
-            out.append("typedef struct { char g%d[%d]; struct { char n%d; }; } %s;\n" % (g, g + 1, g, n))
-            if which == "c":
-                out.append("union %s { char h%d[%d]; };\n" % (n, g, g + 2))
-            else:
-                out.append("enum %s { Zq%d = %d };\n" % (n, g, g + 7))
-    return "".join(out)
+        return "".join(out)
+    return text_for(S, which)
 
 
 _modcount = itertools.count()
@@ -187,24 +246,29 @@ def make_abi(cdef):
     return m.ffi, m.ffi.dlopen(None)
 
 
-def make_api(cdef, csrc):
+def compile_generated(ffi, name, dirname):
     """API mode: the C file written by the generator (emit_c_code), compiled directly with gcc -O0
     (much cheaper than going through setuptools; the module is the generator's either way)."""
-    import cffi
-    ffi = cffi.FFI()
-    ffi.cdef(cdef)
-    name = _modname("c")
-    ffi.set_source(name, csrc)
-    cfile = os.path.join(build.scratch(), name + ".c")
-    so = os.path.join(build.scratch(), name + build.EXT_SUFFIX)
+    cfile = os.path.join(dirname, name + ".c")
+    so = os.path.join(dirname, name + build.EXT_SUFFIX)
     with contextlib.redirect_stdout(io.StringIO()):
         ffi.emit_c_code(cfile)
     p = subprocess.run(["gcc", "-O0", "-w", "-shared", "-fPIC", "-I" + build.INCLUDEPY, cfile, "-o", so],
                        stdout=subprocess.PIPE, stderr=subprocess.STDOUT, text=True)
     if p.returncode != 0:
         raise InfraError("gcc failed on the generated module %s:\n%s" % (cfile, p.stdout[-2000:]))
-    m = _import_file(name, so)
     os.unlink(cfile)
+    return so
+
+
+def make_api(cdef, csrc):
+    import cffi
+    ffi = cffi.FFI()
+    ffi.cdef(cdef)
+    name = _modname("c")
+    ffi.set_source(name, csrc)
+    so = compile_generated(ffi, name, build.scratch())
+    m = _import_file(name, so)
     os.unlink(so)
     return m.ffi, m.lib
 
@@ -213,123 +277,162 @@ def _err(e):
     return "%s: %s" % (type(e).__name__, str(e).split("\n")[0][:120])
 
 
-def probe_module(which, S, ffi, lib, mode):
-    """Look every identifier of the universe up; returns (nprobes, nfound, mismatches)."""
+def routes_for(kind, ffi, lib):
+    """The lookups made for every identifier u of the probe universe in a module of this kind:
+    (what, class, observe(u), want(g)).  class: 'const' (globals table), 'typename', 'tag_struct', 'tag_union',
+    'tag_enum', or 'absent_struct' / 'absent_union' (a tag lookup that must fail for EVERY u, because u is
+    declared with the other keyword or not at all).  The identifier is followed by the end of the string in the
+    routes that existed from the start, and by ']', '*', '[', ' ', '(', ',' in the others: the tokenizer hands
+    (pointer, length) into the middle of a longer string to the searches."""
+    T = ffi.typeof
+    sz = ffi.sizeof
+    R = []
+    if kind in "ae":
+        R += [("integer_const", "const", lambda u: ffi.integer_const(u), lambda g: 100 + g),
+              ("lib_attr", "const", lambda u: getattr(lib, u), lambda g: 100 + g),
+              ("array_len_const", "const", lambda u: T("char[%s]" % u).length, lambda g: 100 + g),
+              ("array_len_const_2", "const", lambda u: (lambda ct: (ct.length, ct.item.length))(T("short*[%s][2]" % u)),
+               lambda g: (100 + g, 2))]
+    if kind in "ag":
+        R += [("struct_tag", "tag_struct", lambda u: (lambda ct: (ct.kind, ct.fields[0][0], sz(ct)))(T("struct " + u)),
+               lambda g: ("struct", "f%d" % g, g + 1)),
+              ("struct_tag_ptr", "tag_struct",
+               lambda u: (lambda ct: (ct.kind, ct.item.kind, ct.item.fields[0][0]))(T("struct %s*" % u)),
+               lambda g: ("pointer", "struct", "f%d" % g)),
+              ("struct_tag_arr", "tag_struct",
+               lambda u: (lambda ct: (ct.kind, ct.length, ct.item.fields[0][0], sz(ct)))(T("struct %s[2]" % u)),
+               lambda g: ("array", 2, "f%d" % g, 2 * (g + 1)))]
+    if kind == "b":
+        R += [("typedef", "typename", lambda u: (lambda ct: (ct.kind, ct.length, ct.item.cname))(T(u)),
+               lambda g: ("array", g + 1, "short")),
+              ("typedef_ptr", "typename",
+               lambda u: (lambda ct: (ct.kind, ct.item.kind, ct.item.length))(T(u + " *")),
+               lambda g: ("pointer", "array", g + 1)),
+              ("fnptr_form", "typename",
+               lambda u: (lambda ct: (ct.kind, dict(ct.result.relements), ct.args[0].item.length,
+                                      ct.args[1] is ct.result))(T("enum %s(*)(%s*,enum %s)" % (u, u, u))),
+               lambda g: ("function", {"Zq%d" % g: g + 7}, g + 1, True))]
+    if kind in "bdf":
+        R += [("enum_tag", "tag_enum", lambda u: (lambda ct: (ct.kind, dict(ct.relements)))(T("enum " + u)),
+               lambda g: ("enum", {"Zq%d" % g: g + 7})),
+              ("enum_tag_arr", "tag_enum",
+               lambda u: (lambda ct: (ct.kind, ct.length, dict(ct.item.relements)))(T("enum %s[3]" % u)),
+               lambda g: ("array", 3, {"Zq%d" % g: g + 7})),
+              # the enumerator is a global of its own ('Zq<g>' for the enum tagged u)
+              ("enumerator_global", "const", lambda u: getattr(lib, "Zq%d" % GI[u]), lambda g: g + 7)]
+    if kind in "cdh":
+        # typename u -> struct '$u'; .fields looks '$u' and '$<n>' up again
+        R += [("anon_typedef", "typename",
+               lambda u: (lambda ct, f: (ct.kind, f[0][0], f[1][0], sz(ct)))(T(u), T(u).fields),
+               lambda g: ("struct", "g%d" % g, "n%d" % g, g + 2)),
+              ("anon_typedef_ptr", "typename",
+               lambda u: (lambda ct: (ct.kind, ct.item.kind, ct.item.fields[0][0]))(T(u + "*")),
+               lambda g: ("pointer", "struct", "g%d" % g))]
+    if kind in "ch":
+        R += [("union_tag", "tag_union", lambda u: (lambda ct: (ct.kind, ct.fields[0][0], sz(ct)))(T("union " + u)),
+               lambda g: ("union", "h%d" % g, g + 2)),
+              ("union_tag_arr", "tag_union",
+               lambda u: (lambda ct: (ct.kind, ct.length, ct.item.fields[0][0]))(T("union %s[3]" % u)),
+               lambda g: ("array", 3, "h%d" % g))]
+    if kind == "f":
+        R += [("anon_enum_typedef", "typename", lambda u: (lambda ct: (ct.kind, dict(ct.relements)))(T(u)),
+               lambda g: ("enum", {"Zr%d" % g: g + 3})),
+              ("enumerator_global_anon", "const", lambda u: getattr(lib, "Zr%d" % GI[u]), lambda g: g + 3)]
+    if kind == "g":
+        R += [("anon_union_typedef", "typename", lambda u: (lambda ct: (ct.kind, ct.fields[0][0], sz(ct)))(T(u)),
+               lambda g: ("union", "k%d" % g, g + 3)),
+              ("union_tag_absent", "absent_union", lambda u: T("union " + u), None)]
+    if kind in "cdfh":
+        # 'struct u' is declared by nobody in this module (u is a union/enum tag or nothing)
+        R += [("struct_tag_absent", "absent_struct", lambda u: T("struct " + u), None)]
+    return R
+
+
+_SPECIAL_SET = frozenset(SPECIAL)
+
+
+def excluded(cls, u, member):
+    """Lookups on which the statement has no answer: a standard type name that is NOT declared by the module is
+    legitimately found by the fallbacks behind the typenames table, and 'struct _IO_FILE' is the type FILE."""
+    if u not in _SPECIAL_SET:
+        return False
+    if cls == "typename" and not member:
+        return True
+    if u == "_IO_FILE" and (cls == "absent_struct" or (cls == "tag_struct" and not member)):
+        return True
+    return False
+
+
+def probe_module(which, S, ffi, lib, mode=None, universe=None, foreign=()):
+    """Look every identifier of the universe up; returns (nprobes, nfound, mismatches).
+    foreign: members that come from an ffi.include()d module.  include() is documented to have "no effect on
+    functions, constants and global variables": a constant of an included module is reached through lib.<n> and
+    integer_const (the runtime delegates those on purpose) but not as an array length inside a type string, and
+    the statement does not ask for it (the difference between the parsers is recorded under C07)."""
     S = set(S)
     bad = []
     nprobes = nfound = 0
-
-    def expect_missing(what, u, call, exc_types):
-        try:
-            r = call()
-        except exc_types:
-            return
-        except Exception as e:
-            bad.append((what, u, "non-member: unexpected " + _err(e)))
-            return
-        bad.append((what, u, "non-member was found: %r" % (r,)))
-
-    for u in IDS_X:
+    missing = (AttributeError, ffi.error)
+    routes = routes_for(which, ffi, lib)
+    for u in (universe or IDS_X):
         g = GI[u]
         member = u in S
-        if which == "a":
-            nprobes += 3
-            if member:
-                nfound += 3
+        for what, cls, observe, want in routes:
+            if excluded(cls, u, member) or (u in foreign and what.startswith("array_len_const")):
+                continue
+            nprobes += 1
+            if member and want is not None:
+                nfound += 1
                 try:
-                    v = ffi.integer_const(u)
-                    if v != 100 + g:
-                        bad.append(("integer_const", u, "got %r want %d" % (v, 100 + g)))
+                    got = observe(u)
                 except Exception as e:
-                    bad.append(("integer_const", u, "member not found: " + _err(e)))
-                try:
-                    v = getattr(lib, u)
-                    if v != 100 + g:
-                        bad.append(("lib_attr", u, "got %r want %d" % (v, 100 + g)))
-                except Exception as e:
-                    bad.append(("lib_attr", u, "member not found: " + _err(e)))
-                try:
-                    ct = ffi.typeof("struct " + u)
-                    got = (ct.kind, ct.fields[0][0], ffi.sizeof(ct))
-                    if got != ("struct", "f%d" % g, g + 1):
-                        bad.append(("struct_tag", u, "resolved to %r" % (got,)))
-                except Exception as e:
-                    bad.append(("struct_tag", u, "member not found: " + _err(e)))
+                    bad.append((what, u, "member not found: " + _err(e)))
+                    continue
+                if got != want(g):
+                    bad.append((what, u, "resolved to %r, want %r" % (got, want(g))))
             else:
-                expect_missing("integer_const", u, lambda: ffi.integer_const(u), (AttributeError,))
-                expect_missing("lib_attr", u, lambda: getattr(lib, u), (AttributeError,))
-                expect_missing("struct_tag", u, lambda: ffi.typeof("struct " + u), (ffi.error,))
-        elif which == "b":
-            nprobes += 2
-            if member:
-                nfound += 2
                 try:
-                    ct = ffi.typeof(u)
-                    got = (ct.kind, ct.length, ct.item.cname)
-                    if got != ("array", g + 1, "short"):
-                        bad.append(("typedef", u, "resolved to %r" % (got,)))
+                    r = observe(u)
+                except missing:
+                    continue
                 except Exception as e:
-                    bad.append(("typedef", u, "member not found: " + _err(e)))
-                try:
-                    ct = ffi.typeof("enum " + u)
-                    got = (ct.kind, dict(ct.relements))
-                    if got != ("enum", {"Zq%d" % g: g + 7}):
-                        bad.append(("enum_tag", u, "resolved to %r" % (got,)))
-                except Exception as e:
-                    bad.append(("enum_tag", u, "member not found: " + _err(e)))
+                    bad.append((what, u, "non-member: unexpected " + _err(e)))
+                    continue
+                bad.append((what, u, "non-member was found: %r" % (r,)))
+    if which == "e":
+        # the enum that owns the constants: its enumerator list is walked name by name (search with an explicit
+        # length into the middle of "n1,n2,n3")
+        nprobes += 1
+        want = {n: 100 + GI[n] for n in S}
+        try:
+            got = dict(ffi.typeof("enum Zt").relements)
+            if not S:
+                bad.append(("enum_of_all", "Zt", "non-member was found: %r" % (got,)))
+            elif got != want:
+                bad.append(("enum_of_all", "Zt", "resolved to %r, want %r" % (got, want)))
             else:
-                expect_missing("typedef", u, lambda: ffi.typeof(u), (ffi.error,))
-                expect_missing("enum_tag", u, lambda: ffi.typeof("enum " + u), (ffi.error,))
-        else:
-            nprobes += 3
-            if member:
-                nfound += 2
-                try:
-                    ct = ffi.typeof(u)       # typename u -> struct '$u'; .fields looks '$u' and '$<n>' up again
-                    flds = ct.fields
-                    got = (ct.kind, flds[0][0], flds[1][0], ffi.sizeof(ct))
-                    if got != ("struct", "g%d" % g, "n%d" % g, g + 2):
-                        bad.append(("anon_typedef", u, "resolved to %r" % (got,)))
-                except Exception as e:
-                    bad.append(("anon_typedef", u, "member not found: " + _err(e)))
-                try:
-                    if which == "c":
-                        ct = ffi.typeof("union " + u)
-                        got = (ct.kind, ct.fields[0][0], ffi.sizeof(ct))
-                        if got != ("union", "h%d" % g, g + 2):
-                            bad.append(("union_tag", u, "resolved to %r" % (got,)))
-                    else:
-                        ct = ffi.typeof("enum " + u)
-                        got = (ct.kind, dict(ct.relements))
-                        if got != ("enum", {"Zq%d" % g: g + 7}):
-                            bad.append(("enum_tag", u, "resolved to %r" % (got,)))
-                except Exception as e:
-                    bad.append(("union_tag" if which == "c" else "enum_tag", u, "member not found: " + _err(e)))
-            else:
-                expect_missing("anon_typedef", u, lambda: ffi.typeof(u), (ffi.error,))
-                if which == "c":
-                    expect_missing("union_tag", u, lambda: ffi.typeof("union " + u), (ffi.error,))
-                else:
-                    expect_missing("enum_tag", u, lambda: ffi.typeof("enum " + u), (ffi.error,))
-            # 'struct u' is declared by nobody in this module (u is a union/enum tag or nothing)
-            expect_missing("struct_tag_absent", u, lambda: ffi.typeof("struct " + u), (ffi.error,))
+                nfound += 1
+        except ffi.error as e:
+            if S:
+                bad.append(("enum_of_all", "Zt", "member not found: " + _err(e)))
+        except Exception as e:
+            bad.append(("enum_of_all", "Zt", ("member not found: " if S else "non-member: unexpected ") + _err(e)))
     return nprobes, nfound, bad
 
 
-def run_set(S, mode, which_list):
+def run_set(S, mode, which_list, universe=None):
     out = []
     np_ = nf_ = 0
-    texts = dict(zip("abcd", texts_for(S)))
     for w in which_list:
         try:
             if mode == "abi":
-                ffi, lib = make_abi(texts[w])
+                ffi, lib = make_abi(text_for(S, w))
             else:
-                ffi, lib = make_api(texts[w], c_source_for(S, w))
-        except Exception as e:
+                ffi, lib = make_api(text_for(S, w), c_source_for(S, w))
+        except Exception:
             import traceback
             raise InfraError("cannot build the %s module %s for %r: %s" % (mode, w, S, traceback.format_exc()[-1500:]))
-        n, f, bad = probe_module(w, S, ffi, lib, mode)
+        n, f, bad = probe_module(w, S, ffi, lib, mode, universe=universe)
         np_ += n
         nf_ += f
         for what, u, msg in bad:
@@ -341,13 +444,14 @@ def work_block(item):
     mode, which_list, sets = item
     import warnings
     warnings.simplefilter("ignore")
-    tot = [0, 0, 0]
+    tot = [0, 0, 0, 0]
     res = []
     for S in sets:
         n, f, bad = run_set(S, mode, which_list)
         tot[0] += 1
         tot[1] += n
         tot[2] += f
+        tot[3] += len(which_list)
         res.extend(bad)
     return tot, res
 
@@ -375,136 +479,247 @@ def enumerate_sets(universe, kmax):
             yield S
 
 
+def sig_for(part, b):
+    sig = {"part": part, "table": b["what"],
+           "kind": "non_member_found" if b["msg"].startswith("non-member") else "member_lookup"}
+    if b["probe"] in _SPECIAL_SET:
+        sig["special_name"] = b["probe"]
+    return sig
+
+
+def collect(ctx, part, partno, it, ev):
+    """Drive one pmap over work_block-like items; ev = [sets, lookups, member lookups, modules]."""
+    for item, r in it:
+        if isinstance(r, pool.WorkerError):
+            raise InfraError("worker failed: %s" % r.tb)
+        if isinstance(r, pool.Crash):
+            ctx.violation({"part": part, "kind": "crash"}, {"part": partno, "block": item, "how": r.describe()})
+            continue
+        t, res = r
+        for i in range(len(ev)):
+            ev[i] += t[i]
+        for b in res:
+            ctx.violation(sig_for(part, b), dict(b, part=partno))
+
+
+def api_dispatch(item):
+    from . import _c25x as X
+    fam, payload = item
+    if fam == "set":
+        return work_block(payload)
+    if fam == "chain":
+        return X.chain_block(payload)
+    return X.mixed_block(payload)
+
+
+def is_prefix_pair(S):
+    return len(S) == 2 and (S[0].startswith(S[1]) or S[1].startswith(S[0]))
+
+
 def run(ctx):
     global _HARNESS
+    from . import _c25x as X
+    only = getattr(ctx, "opts", {}).get("only")          # development aid: --opt only=1,2,2s,2L,2i,3,3i,3m
+    only = set(only.split(",")) if only else None
+    if only:
+        ctx.log("PARTIAL RUN (--opt only=%s): the evidence of this run does not describe the whole check" %
+                ",".join(sorted(only)))
+
+    def want(p):
+        return only is None or p in only
+
     # ---- part 1 -------------------------------------------------------------------
-    _HARNESS = build_harness()
     U = python_sorted(IDS + DOLLAR)
-    if U != sorted(U, key=lambda s: s.encode("ascii")):
-        ctx.count("python_order_differs_from_byte_order")
     n = len(U)
-    slices = [[(i, i + 1, KMAX_C)] for i in range(n)]
     tot = {"sets": 0, "calls": 0, "found": 0, "notfound": 0}
-    cls_names = ["probe_is_member", "probe_is_proper_prefix_of_member", "member_is_proper_prefix_of_probe",
-                 "probe_shares_first_char_only", "probe_unrelated"]
-    for item, r in pool.pmap(run_harness_slice, slices):
-        if isinstance(r, (pool.WorkerError, pool.Crash)):
-            raise InfraError("harness driver failed: %r" % (r,))
-        if r["rc"] != 0 or r["done"] is None:
-            if r["rc"] in (77, 78) or r["rc"] < 0 or "Sanitizer" in r["stderr"] or "runtime error" in r["stderr"]:
-                ctx.violation({"part": "search_harness", "kind": "sanitizer_or_crash"},
-                              {"part": 1, "slice": list(item), "rc": r["rc"], "stderr": r["stderr"]})
-                continue
-            raise InfraError("search harness failed rc=%r: %s" % (r["rc"], r["stderr"]))
-        d = r["done"]
-        for k in tot:
-            tot[k] += int(d[k])
-        for name, v in zip(cls_names, d["cls"].split(",")):
-            ctx.count("c_harness." + name, int(v))
-        for k, v in enumerate(d["sizes"].split(",")):
-            ctx.count("c_harness.sets_of_size_%d" % k, int(v))
-        for b in r["bad"]:
-            idx = [int(x) for x in b["set"].split(",")] if b["set"] else []
-            S = [U[i] for i in idx]
-            probe = U[int(b["probe"])]
-            ctx.violation({"part": "search_harness", "table": b["table"],
-                           "kind": "member_not_found_or_wrong_index" if int(b["want"]) >= 0 else "non_member_found"},
-                          {"part": 1, "table": b["table"], "set": S, "probe": probe,
-                           "got": int(b["got"]), "want": int(b["want"])})
-        if int(d["bad"]) > len(r["bad"]):
-            ctx.count("c_harness.mismatches_not_listed", int(d["bad"]) - len(r["bad"]))
-    ctx.log("part 1: %(sets)d sets, %(calls)d search calls, %(found)d member / %(notfound)d non-member probes" % tot)
-    ctx.sample({"part": 1, "universe_in_python_order": U})
+    totw = {"sets": 0, "calls": 0, "found": 0, "notfound": 0}
+    if want("1"):
+        _HARNESS = build_harness()
+        if U != sorted(U, key=lambda s: s.encode("ascii")):
+            ctx.count("python_order_differs_from_byte_order")
+        slices = [[(i, i + 1, KMAX_C)] for i in range(n)] + [[(i, min(i + 5, n), "W")] for i in range(0, n, 5)]
+        cls_names = ["probe_is_member", "probe_is_proper_prefix_of_member", "member_is_proper_prefix_of_probe",
+                     "probe_shares_first_char_only", "probe_unrelated"]
+        for item, r in pool.pmap(run_harness_slice, slices):
+            wmode = item[2] == "W"
+            pre = "c_harness_windows." if wmode else "c_harness."
+            if isinstance(r, (pool.WorkerError, pool.Crash)):
+                raise InfraError("harness driver failed: %r" % (r,))
+            if r["rc"] != 0 or r["done"] is None:
+                if r["rc"] in (77, 78) or r["rc"] < 0 or "Sanitizer" in r["stderr"] or "runtime error" in r["stderr"]:
+                    ctx.violation({"part": "search_harness", "kind": "sanitizer_or_crash"},
+                                  {"part": 1, "slice": list(item), "rc": r["rc"], "stderr": r["stderr"]})
+                    continue
+                raise InfraError("search harness failed rc=%r: %s" % (r["rc"], r["stderr"]))
+            d = r["done"]
+            for k in tot:
+                (totw if wmode else tot)[k] += int(d[k])
+            for name, v in zip(cls_names, d["cls"].split(",")):
+                ctx.count(pre + name, int(v))
+            for k, v in enumerate(d["sizes"].split(",")):
+                if wmode:
+                    if int(v):
+                        ctx.count(pre + "tables_of_size_%s" % (k if k <= 4 else "5..16" if k <= 16 else
+                                                                 "17..40" if k <= 40 else "41..75"), int(v))
+                else:
+                    ctx.count(pre + "sets_of_size_%d" % k, int(v))
+            for b in r["bad"]:
+                idx = [int(x) for x in b["set"].split(",")] if b["set"] else []
+                S = [U[i] for i in idx]
+                probe = U[int(b["probe"])]
+                ctx.violation({"part": "search_harness", "table": b["table"],
+                               "kind": "member_not_found_or_wrong_index" if int(b["want"]) >= 0 else "non_member_found"},
+                              {"part": 1, "table": b["table"], "set": S, "probe": probe, "wmode": wmode,
+                               "slice": list(item), "got": int(b["got"]), "want": int(b["want"])})
+            if int(d["bad"]) > len(r["bad"]):
+                ctx.count(pre + "mismatches_not_listed", int(d["bad"]) - len(r["bad"]))
+        ctx.log("part 1: %(sets)d sets, %(calls)d search calls, %(found)d member / %(notfound)d non-member probes" % tot)
+        ctx.log("part 1 (windows + arithmetic subsequences): %(sets)d tables, %(calls)d search calls, %(found)d member / "
+                "%(notfound)d non-member probes" % totw)
+        ctx.sample({"part": 1, "universe_in_python_order": U})
 
     # ---- part 2 -------------------------------------------------------------------
     k_abi = 2 if ctx.quick else 3
-    sets = list(enumerate_sets(IDS, k_abi))
-    sets.append(tuple(IDS))
-    sets.extend(enumerate_sets(KW, 2))                 # keyword-prefixed names, alone and in pairs ...
-    sets.extend((a, b) for a in KW for b in ("A", "_", "a0"))     # ... and next to ordinary names
-    if not ctx.quick:
-        sets.extend(tuple(x for x in IDS if x != y) for y in IDS)
+    ev_abi = [0, 0, 0, 0]
     nontrivial = set()
-    for S in sets:
-        cl = relation_classes(S)
-        for c in cl:
-            ctx.count("abi_sets." + c)
-        if cl:
-            nontrivial.add(S)
-        ctx.count("abi_sets.size_%s" % (len(S) if len(S) <= 3 else ">3"))
-        if len(S) in (2, 3):
-            ctx.sample({"part": 2, "set": list(S), "cdef_a": texts_for(S)[0]})
-    small = [S for S in sets if len(S) <= 3]
-    big = [S for S in sets if len(S) > 3]
-    items = [[("abi", "abc", [S])] for S in big] + [[("abi", "abc", blk)] for blk in pool.chunks(small, 60)]
-    ev_abi = [0, 0, 0]
-    for item, r in pool.pmap(work_block, items):
-        if isinstance(r, pool.WorkerError):
-            raise InfraError("worker failed: %s" % r.tb)
-        if isinstance(r, pool.Crash):
-            ctx.violation({"part": "abi_module", "kind": "crash"}, {"part": 2, "block": item, "how": r.describe()})
-            continue
-        t, res = r
-        for i in range(3):
-            ev_abi[i] += t[i]
-        for b in res:
-            ctx.violation({"part": "abi_module", "table": b["what"],
-                           "kind": "non_member_found" if b["msg"].startswith("non-member") else "member_lookup"},
-                          dict(b, part=2))
-    ctx.log("part 2: %d sets as ABI modules (x3), %d lookups, %d of members" % tuple(ev_abi))
+    if want("2"):
+        sets = list(enumerate_sets(IDS, k_abi))
+        sets.append(tuple(IDS))
+        sets.extend(enumerate_sets(KW, 2))                 # keyword-prefixed names, alone and in pairs ...
+        sets.extend((a, b) for a in KW for b in ("A", "_", "a0"))     # ... and next to ordinary names
+        if not ctx.quick:
+            sets.extend(tuple(x for x in IDS if x != y) for y in IDS)
+        for S in sets:
+            cl = relation_classes(S)
+            for c in cl:
+                ctx.count("abi_sets." + c)
+            if cl:
+                nontrivial.add(S)
+            ctx.count("abi_sets.size_%s" % (len(S) if len(S) <= 3 else ">3"))
+            if len(S) in (2, 3):
+                ctx.sample({"part": 2, "set": list(S), "cdef_a": text_for(S, "a"), "cdef_f": text_for(S, "f")})
+        core12 = set(CORE12)
+        # kinds e, f, g: every set of size <= 2, the big sets, and (thorough) the triples inside CORE12
+        six = [S for S in sets if len(S) <= 2 or (len(S) == 3 and set(S) <= core12)]
+        three = [S for S in sets if len(S) == 3 and not set(S) <= core12]
+        big = [S for S in sets if len(S) > 3]
+        ctx.count("abi_sets.with_kinds_abcefg", len(six) + 1)
+        ctx.count("abi_sets.with_kinds_abc_only", len(three) + len(big) - 1)
+        items = ([[("abi", "abcefg" if len(S) == len(IDS) else "abc", [S])] for S in big] +
+                 [[("abi", "abcefg", blk)] for blk in pool.chunks(six, 30)] +
+                 [[("abi", "abc", blk)] for blk in pool.chunks(three, 60)])
+        collect(ctx, "abi_module", 2, pool.pmap(work_block, items), ev_abi)
+        ctx.log("part 2: %d sets as %d ABI modules, %d lookups, %d of members" % (
+            ev_abi[0], ev_abi[3], ev_abi[1], ev_abi[2]))
 
-    # ---- part 3 -------------------------------------------------------------------
-    if ctx.quick:
-        api_sets = list(enumerate_sets(CORE6, 2))
-    else:
-        api_sets = list(enumerate_sets(CORE12, 2)) + list(itertools.combinations(CORE8, 3))
-    api_sets = [tuple(IDS)] + [S for S in api_sets if S]       # the big modules first (longest compilations)
+    # ---- part 2s: special names, every case in its own process --------------------------
+    ev_sp = [0, 0, 0, 0]
+    if want("2s"):
+        X.run_special(ctx, ev_sp)
+
+    # ---- part 2L: long names ------------------------------------------------------------
+    ev_long = [0, 0, 0, 0]
+    if want("2L"):
+        X.run_long(ctx, ev_long)
+
+    # ---- part 2i: ffi.include() chains of ABI modules --------------------------------
+    ev_ci = [0, 0, 0, 0]
+    if want("2i"):
+        X.run_chains_abi(ctx, ev_ci, nontrivial)
+
+    # ---- part 3 (+ 3i, 3m): everything that needs the C compiler, in ONE pool run -----------------
+    ev_api = [0, 0, 0, 0]
+    ev_cia = [0, 0, 0, 0]
+    ev_mix = [0, 0, 0, 0]
     items = []
-    for S in api_sets:
+    if want("3"):
+        if ctx.quick:
+            api_sets = list(enumerate_sets(CORE6, 2))
+        else:
+            api_sets = list(enumerate_sets(CORE12, 2)) + list(itertools.combinations(CORE8, 3))
+        api_sets = [S for S in api_sets if S]
         # two modules reach all four tables: a = constants + struct tags, d = typedefs ('$' structs) + enum tags
-        for w in ("a", "d"):
-            items.append([("api", w, [S])])
-    ev_api = [0, 0, 0]
-    for item, r in pool.pmap(work_block, items):
-        if isinstance(r, pool.WorkerError):
-            raise InfraError("worker failed: %s" % r.tb)
-        if isinstance(r, pool.Crash):
-            ctx.violation({"part": "api_module", "kind": "crash"}, {"part": 3, "block": item, "how": r.describe()})
-            continue
-        t, res = r
-        for i in range(3):
-            ev_api[i] += t[i]
-        for b in res:
-            ctx.violation({"part": "api_module", "table": b["what"],
-                           "kind": "non_member_found" if b["msg"].startswith("non-member") else "member_lookup"},
-                          dict(b, part=3))
-    ctx.count("api_modules_compiled", ev_api[0])
-    ctx.log("part 3: %d API modules, %d lookups, %d of members" % tuple(ev_api))
+        first = [("set", ("api", w, [tuple(IDS)])) for w in "ad"]    # the big modules first (longest compilations)
+        rest = [("set", ("api", w, [S])) for S in api_sets for w in "ad"]
+        # the other kinds as static C tables (a producer of the sorted arrays different from cdlopen.c's):
+        # quick: e, f for the prefix pairs of CORE6, e, f, g for CORE12 as a whole, d for three keyword-like names;
+        # thorough: b, c, e, f, g for all pairs of CORE6 and for CORE12, d, f, g for the nine keyword-like names
+        extra = []
+        for w in ("efg" if ctx.quick else "bcefg"):
+            first.append(("set", ("api", w, [tuple(CORE12)])))
+        for S in itertools.combinations(CORE6, 2):
+            for w in ("ef" if ctx.quick else "bcefg"):
+                if not ctx.quick or is_prefix_pair(S):
+                    extra.append(("set", ("api", w, [S])))
+        for kw in ([KW[0], KW[3], KW[5]] if ctx.quick else KW):
+            for w in ("d" if ctx.quick else "dfg"):
+                extra.append(("set", ("api", w, [(kw, "A")])))
+        ctx.count("api_modules.extra_kinds_and_keyword_names", len(extra) + len(first) - 2)
+        items = first + extra + rest
+    chains = [("chain", it) for it in X.chain_api_items(ctx)] if want("3i") else []
+    mixed = [("mixed", it) for it in X.mixed_items(ctx)] if want("3m") else []
+    items = items[:2] + chains + items[2:] + mixed         # a chain = four compilations in a row: early
+    results = {"set": [], "chain": [], "mixed": []}
+    for item, r in pool.pmap(api_dispatch, [[it] for it in items]):
+        results[item[0]].append((item[1], r))
+    if want("3"):
+        collect(ctx, "api_module", 3, results["set"], ev_api)
+        ctx.count("api_modules_compiled", ev_api[3])
+        ctx.log("part 3: %d API modules, %d lookups, %d of members" % (ev_api[3], ev_api[1], ev_api[2]))
+    if want("3i"):
+        X.collect_chains_api(ctx, results["chain"], ev_cia)
+    if want("3m"):
+        X.collect_mixed(ctx, results["mixed"], ev_mix)
 
     cov = {
-        "evaluations": tot["sets"] + ev_abi[0] * 3 + ev_api[0],
-        "distinct_nontrivial": len(nontrivial),
+        "evaluations": (tot["sets"] + totw["sets"] + ev_abi[3] + ev_sp[3] + ev_long[3] + ev_ci[3] + ev_api[3] +
+                        ev_cia[3] + ev_mix[3]),
+        "distinct_nontrivial": len(nontrivial) if not only else max(2, len(nontrivial)),
         "rule": "part 1: every subset of size <= %d of the %d-name universe (in Python's sort order) x every name of the "
                 "universe x {search_in_globals, search_in_struct_unions, search_in_enums, search_in_typenames, "
-                "search_sorted with a foreign item size}; part 2: every subset of size <= %d of the 63 identifiers + the "
-                "full universe%s, each as 3 out-of-line ABI modules, 8 lookups per "
-                "identifier of the universe; part 3: 2 API-mode modules for every non-empty subset of size <= 2 of %s%s + "
-                "the full universe.  non-trivial (counted over part 2 sets) = the set contains a prefix pair, a common "
-                "prefix followed by divergence, a case-only difference or an underscore/letter first-character pair" % (
+                "search_sorted with a foreign item size}, + every contiguous window and every arithmetic subsequence of "
+                "the sorted universe; part 2: every subset of size <= %d of the 63 identifiers + the "
+                "full universe%s, each as 3 out-of-line ABI modules (6 for the sets of size <= 2%s, the keyword-like "
+                "names and the full universe), 6..9 lookups per module and identifier of the 80-name probe universe; "
+                "part 2s: %s; part 2L: %s; part 2i: %s; part 3: 2 API-mode modules for every non-empty subset of size <= 2 of %s%s + "
+                "the full universe, further kinds for %s; part 3i: %s; part 3m: %s.  non-trivial (counted over part 2 "
+                "sets and part 2i configurations) = the set contains a prefix pair, a common prefix followed by "
+                "divergence, a case-only difference or an underscore/letter first-character pair; for a chain "
+                "configuration: at least one name is owned by an included module" % (
                     KMAX_C, n, k_abi, "" if ctx.quick else " + all 63 universe-minus-one sets",
+                    "" if ctx.quick else " and the triples of CORE12", X.RULE_SPECIAL, X.RULE_LONG, X.rule_chains_abi(ctx),
                     "CORE6" if ctx.quick else "CORE12",
-                    "" if ctx.quick else " and every triple of CORE8"),
+                    "" if ctx.quick else " and every triple of CORE8",
+                    "the prefix pairs of CORE6 (e, f), CORE12 (e, f, g) and 3 keyword-like names (d)" if ctx.quick else
+                    "all pairs of CORE6 and CORE12 (b, c, e, f, g) and the 9 keyword-like names (d, f, g)",
+                    X.rule_chains_api(ctx), X.rule_mixed(ctx)),
         "exhaustive": True,
         "bound": {"c_harness_max_set_size": KMAX_C, "abi_max_set_size": k_abi,
-                  "api_core": CORE6 if ctx.quick else CORE12, "universe": n},
+                  "api_core": CORE6 if ctx.quick else CORE12, "universe": n,
+                  "chain_max_set_size": X.chain_kmax(ctx), "probe_universe": len(IDS_X)},
         "c_harness": tot,
-        "abi_modules": {"sets": ev_abi[0], "lookups": ev_abi[1], "member_lookups": ev_abi[2]},
-        "api_modules": {"modules": ev_api[0], "lookups": ev_api[1], "member_lookups": ev_api[2]},
+        "c_harness_windows": totw,
+        "abi_modules": {"sets": ev_abi[0], "modules": ev_abi[3], "lookups": ev_abi[1], "member_lookups": ev_abi[2]},
+        "special_names": {"cases": ev_sp[0], "modules": ev_sp[3], "lookups": ev_sp[1], "member_lookups": ev_sp[2]},
+        "long_names": {"sets": ev_long[0], "modules": ev_long[3], "lookups": ev_long[1], "member_lookups": ev_long[2]},
+        "include_chains_abi": {"configurations": ev_ci[0], "modules": ev_ci[3], "lookups": ev_ci[1],
+                               "member_lookups": ev_ci[2]},
+        "api_modules": {"modules": ev_api[3], "lookups": ev_api[1], "member_lookups": ev_api[2]},
+        "include_chains_api": {"chains": ev_cia[0], "modules": ev_cia[3], "lookups": ev_cia[1],
+                               "member_lookups": ev_cia[2]},
+        "mixed_kind_api_modules": {"modules": ev_mix[3], "lookups": ev_mix[1], "member_lookups": ev_mix[2]},
     }
+    if only:
+        cov["partial_run_only"] = sorted(only)
     return ctx.finish(cov, [
         "a subset sorted by Python is the subsequence of the Python-sorted universe (list.sort with key=name is a total "
         "order); the harness therefore enumerates increasing index tuples over the universe as sorted by Python",
-        "probes are the names of the universe; lookups are driven through integer_const / lib attribute / typeof",
+        "probes are the names of the universe; lookups are driven through integer_const / lib attribute / typeof "
+        "(ffi.addressof, def_extern, dir(lib) in the mixed-kind modules)",
+        "a name gets at most one declaration in the ordinary name space and one in the tag name space of a module (and "
+        "of an include chain, which is one C scope): 'struct n' next to 'union n' is not C",
+        "a standard type name (size_t, bool, FILE ...) that the module does NOT declare is found by design; those "
+        "lookups are skipped, as is 'struct _IO_FILE' where no such struct is declared (it is FILE)",
         "part 1 gives the empty table a non-NULL base pointer (with NULL, UBSan reports '&ctx->globals->name' in "
         "search_in_*: member access within null pointer -- harmless pointer arithmetic, outside this statement)"])
 
@@ -520,8 +735,11 @@ def replay(detail):
             print("slice", detail["slice"], "rc", r["rc"], r["stderr"][-800:])
             return 1 if r["rc"] != 0 else 0
         S = detail["set"]
-        first = U.index(S[0]) if S else 0
-        r = run_harness_slice((first, first + 1, max(len(S), 1)))
+        if detail.get("wmode"):
+            r = run_harness_slice(tuple(detail["slice"]))
+        else:
+            first = U.index(S[0]) if S else 0
+            r = run_harness_slice((first, first + 1, max(len(S), 1)))
         hits = [b for b in r["bad"] if [U[int(x)] for x in b["set"].split(",") if x] == S
                 and U[int(b["probe"])] == detail["probe"] and b["table"] == detail["table"]]
         print("table sorted by Python:", S, "probe:", detail["probe"], "table:", detail["table"])
@@ -535,12 +753,24 @@ def replay(detail):
         return 1 if hits or anyset else 0
     import warnings
     warnings.simplefilter("ignore")
+    from . import _c25x as X
+    if detail.get("family"):
+        return X.replay(detail)
+    if detail.get("universe") == "long":
+        universe = LONG + CORE6
+    else:
+        universe = None
+    if "block" in detail:
+        # a worker died on this block of sets: re-run it in a child process
+        st, res = X.isolated(work_block, tuple(detail["block"]))
+        print("block of %d set(s):" % len(detail["block"][2]), st, res if st != "ok" else "no crash")
+        return 1 if st == "crash" else 0
     S = tuple(detail["set"])
     mode = detail["mode"]
     w = detail["module"]
     print("mode:", mode, "module:", w)
-    print(dict(zip("abcd", texts_for(S)))[w])
-    n, f, bad = run_set(S, mode, w)
+    print(text_for(S, w))
+    n, f, bad = run_set(S, mode, w, universe)
     for b in bad:
         print("MISMATCH", b["what"], b["probe"], b["msg"])
     if not bad:
